@@ -1,11 +1,23 @@
-//! The C05 / C06 check functions.  One function per obligation *scheme*; the concrete shape
-//! (identifier widths, flags, string / list lengths, TLV layout) arrives as ordinary arguments that
-//! are literals in the generated harness (see gen.py), so that under Kani every length is concrete
-//! and only value octets -- taken from the single K-octet input `v` -- are symbolic.
+//! The C05 / C06 check functions.
+//!
+//! One generic function per obligation *scheme*, instantiated per codec type through the
+//! [`Codec`] / [`Build`] traits.  The concrete shape (identifier widths, flags, string / list
+//! lengths, TLV layout) arrives as ordinary arguments that are literals in the generated harness
+//! (see gen.py), so that under Kani every length is concrete and only value octets -- taken from
+//! the single K-octet input `v` -- are symbolic.
+//!
+//! Kani/CBMC cost rules this file obeys (all measured, see README):
+//!  * never move a value out of an `Option`/`Result`/enum when its lengths matter afterwards:
+//!    Kani encodes enum payloads as a union and CBMC loses every constant stored in it.  Builders
+//!    therefore return `(value, valid)` tuples and results are inspected by reference;
+//!  * a decoder only ever runs on a `Wire` whose length-determining octets are pinned constants;
+//!  * each check is monomorphic in the codec type, so that a harness's goto program contains only
+//!    that type's codec.
 
 use crate::util::*;
 #[allow(unused_imports)]
 use crate::{vcheck, vskip};
+use camino::Utf8PathBuf;
 use cfdp_core::daemon::Report;
 use cfdp_core::pdu::*;
 use cfdp_core::transaction::TransactionID;
@@ -13,9 +25,446 @@ use cfdp_core::transaction::TransactionID;
 pub use cfdp_core::pdu::FileSizeFlag as Fss;
 
 // =============================================================================================
-// Shapes
+// Codec: uniform view of every encoder / decoder pair of cfdp-core
 // =============================================================================================
+pub trait Codec: Sized {
+    /// decoding context (file-size flag, segment metadata flag ...)
+    type Ctx: Copy;
+    fn dec(c: Self::Ctx, s: &mut &[u8]) -> PDUResult<Self>;
+    /// `self.clone().encode(..)`
+    fn enc(&self, c: Self::Ctx) -> Vec<u8>;
+    /// what `encoded_len` promises for `enc().len()` (None: the type has no encoded_len)
+    fn elen(&self, c: Self::Ctx) -> Option<usize>;
+    /// structural equality, file names compared as strings
+    fn same(&self, o: &Self) -> bool;
+    /// canonicalisation applied before re-encoding (only PDU: recompute the length field)
+    fn canon(&mut self) {}
+}
 
+macro_rules! codec_plain {
+    ($t:ty, $same:expr) => {
+        impl Codec for $t {
+            type Ctx = ();
+            fn dec(_c: (), s: &mut &[u8]) -> PDUResult<Self> {
+                <$t as PDUEncode>::decode(s)
+            }
+            fn enc(&self, _c: ()) -> Vec<u8> {
+                PDUEncode::encode(self.clone())
+            }
+            fn elen(&self, _c: ()) -> Option<usize> {
+                Some(PDUEncode::encoded_len(self) as usize)
+            }
+            fn same(&self, o: &Self) -> bool {
+                $same(self, o)
+            }
+        }
+    };
+}
+macro_rules! codec_fss {
+    ($t:ty, $same:expr) => {
+        impl Codec for $t {
+            type Ctx = Fss;
+            fn dec(c: Fss, s: &mut &[u8]) -> PDUResult<Self> {
+                <$t as FSSEncode>::decode(s, c)
+            }
+            fn enc(&self, c: Fss) -> Vec<u8> {
+                FSSEncode::encode(self.clone(), c)
+            }
+            fn elen(&self, c: Fss) -> Option<usize> {
+                Some(FSSEncode::encoded_len(self, c) as usize)
+            }
+            fn same(&self, o: &Self) -> bool {
+                $same(self, o)
+            }
+        }
+    };
+}
+fn eq_d<T: PartialEq>(a: &T, b: &T) -> bool {
+    a == b
+}
+
+codec_plain!(TransmissionMode, eq_d);
+codec_plain!(FaultHandlerOverride, eq_d);
+codec_plain!(FlowLabel, eq_d);
+codec_plain!(MessageToUser, eq_d);
+codec_plain!(FileStoreRequest, eq_fsreq);
+codec_plain!(FileStoreResponse, eq_fsresp);
+codec_plain!(MetadataTLV, eq_tlv);
+codec_plain!(Finished, eq_finished);
+codec_plain!(PositiveAcknowledgePDU, eq_d);
+codec_plain!(PromptPDU, eq_d);
+codec_plain!(PDUHeader, eq_d);
+codec_plain!(UserOperation, eq_userop);
+codec_plain!(OriginatingTransactionIDMessage, eq_d);
+codec_plain!(ProxyPutResponse, eq_d);
+codec_plain!(ProxySegmentationControl, eq_d);
+codec_plain!(RemoteStatusReportResponse, eq_d);
+codec_plain!(RemoteSuspendRequest, eq_d);
+codec_plain!(RemoteSuspendResponse, eq_d);
+codec_plain!(RemoteResumeRequest, eq_d);
+codec_plain!(RemoteResumeResponse, eq_d);
+codec_plain!(SFOReport, eq_d);
+// SFORequest has private path fields: only the derived (path component) equality is available
+codec_plain!(SFORequest, eq_d);
+codec_plain!(ProxyPutRequest, |a: &ProxyPutRequest, b: &ProxyPutRequest| a
+    .destination_entity_id
+    == b.destination_entity_id
+    && eq_path(&a.source_filename, &b.source_filename)
+    && eq_path(&a.destination_filename, &b.destination_filename));
+codec_plain!(
+    DirectoryListingRequest,
+    |a: &DirectoryListingRequest, b: &DirectoryListingRequest| eq_path(
+        &a.directory_name,
+        &b.directory_name
+    ) && eq_path(&a.directory_filename, &b.directory_filename)
+);
+codec_plain!(
+    DirectoryListingResponse,
+    |a: &DirectoryListingResponse, b: &DirectoryListingResponse| a.response_code
+        == b.response_code
+        && eq_path(&a.directory_name, &b.directory_name)
+        && eq_path(&a.directory_filename, &b.directory_filename)
+);
+codec_plain!(
+    RemoteStatusReportRequest,
+    |a: &RemoteStatusReportRequest, b: &RemoteStatusReportRequest| a.source_entity_id
+        == b.source_entity_id
+        && a.transaction_sequence_number == b.transaction_sequence_number
+        && eq_path(&a.report_filename, &b.report_filename)
+);
+
+codec_fss!(SegmentRequestForm, eq_d);
+codec_fss!(EndOfFile, eq_d);
+codec_fss!(MetadataPDU, eq_metadata);
+codec_fss!(NegativeAcknowledgmentPDU, eq_d);
+codec_fss!(KeepAlivePDU, eq_d);
+codec_fss!(UnsegmentedFileData, eq_d);
+codec_fss!(SegmentedFileData, eq_d);
+codec_fss!(Operations, eq_ops);
+
+impl Codec for VariableID {
+    type Ctx = ();
+    fn dec(_c: (), s: &mut &[u8]) -> PDUResult<Self> {
+        VariableID::decode(s)
+    }
+    fn enc(&self, _c: ()) -> Vec<u8> {
+        self.encode()
+    }
+    /// NB VariableID::encoded_len() is the width of the value; encode() prepends a length octet.
+    fn elen(&self, _c: ()) -> Option<usize> {
+        Some(self.encoded_len() as usize + 1)
+    }
+    fn same(&self, o: &Self) -> bool {
+        self == o
+    }
+}
+
+/// `read_length_value_pair` (no encoder in the crate; its inverse is the LV form)
+pub struct Lv(pub Vec<u8>);
+impl Codec for Lv {
+    type Ctx = ();
+    fn dec(_c: (), s: &mut &[u8]) -> PDUResult<Self> {
+        Ok(Lv(read_length_value_pair(s)?))
+    }
+    fn enc(&self, _c: ()) -> Vec<u8> {
+        let mut e = vec![self.0.len() as u8];
+        e.extend_from_slice(&self.0);
+        e
+    }
+    fn elen(&self, _c: ()) -> Option<usize> {
+        None
+    }
+    fn same(&self, o: &Self) -> bool {
+        self.0 == o.0
+    }
+}
+
+impl Codec for Report {
+    type Ctx = ();
+    fn dec(_c: (), s: &mut &[u8]) -> PDUResult<Self> {
+        Report::decode(s)
+    }
+    fn enc(&self, _c: ()) -> Vec<u8> {
+        self.clone().encode()
+    }
+    fn elen(&self, _c: ()) -> Option<usize> {
+        None
+    }
+    fn same(&self, b: &Self) -> bool {
+        self.id == b.id
+            && self.state == b.state
+            && self.status == b.status
+            && self.condition == b.condition
+    }
+}
+
+/// FileDataPDU: ctx = (file-size flag, segment metadata present)
+impl Codec for FileDataPDU {
+    type Ctx = (Fss, bool);
+    fn dec(c: Self::Ctx, s: &mut &[u8]) -> PDUResult<Self> {
+        FileDataPDU::decode(s, seg_flag(c.1), c.0)
+    }
+    fn enc(&self, c: Self::Ctx) -> Vec<u8> {
+        self.clone().encode(c.0)
+    }
+    fn elen(&self, c: Self::Ctx) -> Option<usize> {
+        Some(self.encoded_len(c.0) as usize)
+    }
+    fn same(&self, o: &Self) -> bool {
+        self == o
+    }
+}
+/// PDUPayload: ctx = (is file data, file-size flag, segment metadata present)
+impl Codec for PDUPayload {
+    type Ctx = (bool, Fss, bool);
+    fn dec(c: Self::Ctx, s: &mut &[u8]) -> PDUResult<Self> {
+        let t = if c.0 {
+            PDUType::FileData
+        } else {
+            PDUType::FileDirective
+        };
+        PDUPayload::decode(s, t, c.1, seg_flag(c.2))
+    }
+    fn enc(&self, c: Self::Ctx) -> Vec<u8> {
+        self.clone().encode(c.1)
+    }
+    fn elen(&self, c: Self::Ctx) -> Option<usize> {
+        Some(self.encoded_len(c.1) as usize)
+    }
+    fn same(&self, o: &Self) -> bool {
+        eq_payload(self, o)
+    }
+}
+/// Whole PDU.  NB PDU::encoded_len() does not count the two CRC octets; the obligation is
+/// encoded_len + (2 if CRC) == encode().len().  Canonical form: the length field is recomputed
+/// from the payload (C06 statement).
+impl Codec for PDU {
+    type Ctx = ();
+    fn dec(_c: (), s: &mut &[u8]) -> PDUResult<Self> {
+        PDU::decode(s)
+    }
+    fn enc(&self, _c: ()) -> Vec<u8> {
+        self.clone().encode()
+    }
+    fn elen(&self, _c: ()) -> Option<usize> {
+        let extra = match self.header.crc_flag {
+            CRCFlag::Present => 2,
+            CRCFlag::NotPresent => 0,
+        };
+        Some(self.encoded_len() as usize + extra)
+    }
+    fn same(&self, o: &Self) -> bool {
+        eq_pdu(self, o)
+    }
+    fn canon(&mut self) {
+        self.header.pdu_data_field_length = self.payload.encoded_len(self.header.large_file_flag);
+    }
+}
+fn seg_flag(b: bool) -> SegmentedData {
+    if b {
+        SegmentedData::Present
+    } else {
+        SegmentedData::NotPresent
+    }
+}
+
+// =============================================================================================
+// Build: shape + pool -> value.  `valid == false` <=> pool octets outside the shape (harness
+// skips); the returned value is then an arbitrary placeholder.
+// =============================================================================================
+pub trait Build: Codec {
+    type Shape: Copy;
+    fn build(s: &mut Src, c: Self::Ctx, sh: Self::Shape) -> (Self, bool);
+}
+
+fn cond_of(n: u8, valid: &mut bool) -> Condition {
+    match condition(n) {
+        Some(c) => c,
+        None => {
+            *valid = false;
+            Condition::NoError
+        }
+    }
+}
+
+impl Build for VariableID {
+    type Shape = usize;
+    fn build(s: &mut Src, _c: (), w: usize) -> (Self, bool) {
+        (s.varid(w), true)
+    }
+}
+impl Build for TransmissionMode {
+    type Shape = ();
+    fn build(s: &mut Src, _c: (), _sh: ()) -> (Self, bool) {
+        (tmode(s.bool()), true)
+    }
+}
+impl Build for FaultHandlerOverride {
+    type Shape = ();
+    fn build(s: &mut Src, _c: (), _sh: ()) -> (Self, bool) {
+        match handler_code(s.u8() & 0x07) {
+            Some(c) => (
+                FaultHandlerOverride {
+                    fault_handler_code: c,
+                },
+                true,
+            ),
+            None => (
+                FaultHandlerOverride {
+                    fault_handler_code: HandlerCode::IgnoreError,
+                },
+                false,
+            ),
+        }
+    }
+}
+impl Build for FlowLabel {
+    type Shape = usize;
+    fn build(s: &mut Src, _c: (), n: usize) -> (Self, bool) {
+        (FlowLabel { value: s.bytes(n) }, true)
+    }
+}
+impl Build for MessageToUser {
+    type Shape = usize;
+    fn build(s: &mut Src, _c: (), n: usize) -> (Self, bool) {
+        (
+            MessageToUser {
+                message_text: s.bytes(n),
+            },
+            true,
+        )
+    }
+}
+impl Build for FileStoreRequest {
+    type Shape = (usize, usize);
+    fn build(s: &mut Src, _c: (), sh: (usize, usize)) -> (Self, bool) {
+        let (a, valid) = match fs_action(s.u8() & 0x0f) {
+            Some(a) => (a, true),
+            None => (FileStoreAction::CreateFile, false),
+        };
+        (
+            FileStoreRequest {
+                action_code: a,
+                first_filename: s.path(sh.0),
+                second_filename: s.path(sh.1),
+            },
+            valid,
+        )
+    }
+}
+impl Build for FileStoreResponse {
+    type Shape = (usize, usize, usize);
+    fn build(s: &mut Src, _c: (), sh: (usize, usize, usize)) -> (Self, bool) {
+        let b = s.u8();
+        let (st, valid) = match fs_status(b >> 4, b & 0x0f) {
+            Some(a) => (a, true),
+            None => (FileStoreStatus::CreateFile(CreateFileStatus::Successful), false),
+        };
+        (
+            FileStoreResponse {
+                action_and_status: st,
+                first_filename: s.path(sh.0),
+                second_filename: s.path(sh.1),
+                filestore_message: s.bytes(sh.2),
+            },
+            valid,
+        )
+    }
+}
+impl Build for SegmentRequestForm {
+    type Shape = ();
+    fn build(s: &mut Src, c: Fss, _sh: ()) -> (Self, bool) {
+        (
+            SegmentRequestForm {
+                start_offset: s.fss(c),
+                end_offset: s.fss(c),
+            },
+            true,
+        )
+    }
+}
+/// shape: fault location width (None <=> condition == NoError; wire-format well-formedness)
+impl Build for EndOfFile {
+    type Shape = Option<usize>;
+    fn build(s: &mut Src, c: Fss, fault: Option<usize>) -> (Self, bool) {
+        let mut valid = true;
+        let cond = cond_of(s.u8() & 0x0f, &mut valid);
+        if (cond == Condition::NoError) != fault.is_none() {
+            valid = false;
+        }
+        (
+            EndOfFile {
+                condition: cond,
+                checksum: s.u32(),
+                file_size: s.fss(c),
+                fault_location: match fault {
+                    Some(w) => Some(s.varid(w)),
+                    None => None,
+                },
+            },
+            valid,
+        )
+    }
+}
+/// shape: filestore responses (l1, l2, lmsg); condition != NoError; fault location width
+/// (a fault location is only allowed when condition != NoError)
+impl Build for Finished {
+    type Shape = (&'static [(usize, usize, usize)], bool, Option<usize>);
+    fn build(s: &mut Src, _c: (), sh: Self::Shape) -> (Self, bool) {
+        let (resps, err, fault) = sh;
+        let mut valid = true;
+        let b = s.u8();
+        let cond = cond_of(b & 0x0f, &mut valid);
+        if (cond != Condition::NoError) != err {
+            valid = false;
+        }
+        let mut filestore_response = Vec::with_capacity(resps.len());
+        let mut i = 0;
+        while i < resps.len() {
+            let (r, ok) = FileStoreResponse::build(s, (), resps[i]);
+            if !ok {
+                valid = false;
+            }
+            filestore_response.push(r);
+            i += 1;
+        }
+        (
+            Finished {
+                condition: cond,
+                delivery_code: delivery(b & 0x10 != 0),
+                file_status: file_status(b >> 5),
+                filestore_response,
+                fault_location: match fault {
+                    Some(w) => Some(s.varid(w)),
+                    None => None,
+                },
+            },
+            valid,
+        )
+    }
+}
+/// "Only valid for EoF and Finished directives"; EoF pairs with Other, Finished with Finished.
+impl Build for PositiveAcknowledgePDU {
+    type Shape = ();
+    fn build(s: &mut Src, _c: (), _sh: ()) -> (Self, bool) {
+        let b = s.u8();
+        let mut valid = true;
+        let (directive, directive_subtype_code) = if b & 0x10 != 0 {
+            (PDUDirective::Finished, ACKSubDirective::Finished)
+        } else {
+            (PDUDirective::EoF, ACKSubDirective::Other)
+        };
+        (
+            PositiveAcknowledgePDU {
+                directive,
+                directive_subtype_code,
+                condition: cond_of(b & 0x0f, &mut valid),
+                transaction_status: tx_status(b >> 5),
+            },
+            valid,
+        )
+    }
+}
 /// Shape of a Metadata TLV (string lengths / id width).
 #[derive(Clone, Copy, Debug)]
 pub enum Tlv {
@@ -26,26 +475,473 @@ pub enum Tlv {
     Flow(usize),
     Eid(usize),
 }
-
+impl Build for MetadataTLV {
+    type Shape = Tlv;
+    fn build(s: &mut Src, _c: (), t: Tlv) -> (Self, bool) {
+        match t {
+            Tlv::FsReq(a, b) => {
+                let (x, ok) = FileStoreRequest::build(s, (), (a, b));
+                (MetadataTLV::FileStoreRequest(x), ok)
+            }
+            Tlv::FsResp(a, b, c) => {
+                let (x, ok) = FileStoreResponse::build(s, (), (a, b, c));
+                (MetadataTLV::FileStoreResponse(x), ok)
+            }
+            Tlv::Msg(n) => (
+                MetadataTLV::MessageToUser(MessageToUser {
+                    message_text: s.bytes(n),
+                }),
+                true,
+            ),
+            Tlv::Fho => {
+                let (x, ok) = FaultHandlerOverride::build(s, (), ());
+                (MetadataTLV::FaultHandlerOverride(x), ok)
+            }
+            Tlv::Flow(n) => (MetadataTLV::FlowLabel(FlowLabel { value: s.bytes(n) }), true),
+            Tlv::Eid(w) => (MetadataTLV::EntityID(s.varid(w)), true),
+        }
+    }
+}
+/// shape: source name length, destination name length, options
+impl Build for MetadataPDU {
+    type Shape = (usize, usize, &'static [Tlv]);
+    fn build(s: &mut Src, c: Fss, sh: Self::Shape) -> (Self, bool) {
+        let (ls, ld, opts) = sh;
+        let mut valid = true;
+        let b = s.u8();
+        let file_size = s.fss(c);
+        let source_filename = s.path(ls);
+        let destination_filename = s.path(ld);
+        let mut options = Vec::with_capacity(opts.len());
+        let mut i = 0;
+        while i < opts.len() {
+            let (o, ok) = MetadataTLV::build(s, (), opts[i]);
+            if !ok {
+                valid = false;
+            }
+            options.push(o);
+            i += 1;
+        }
+        (
+            MetadataPDU {
+                closure_requested: b & 1 != 0,
+                checksum_type: checksum_type(b & 2 != 0),
+                file_size,
+                source_filename,
+                destination_filename,
+                options,
+            },
+            valid,
+        )
+    }
+}
+/// shape: number of segment requests
+impl Build for NegativeAcknowledgmentPDU {
+    type Shape = usize;
+    fn build(s: &mut Src, c: Fss, n: usize) -> (Self, bool) {
+        let start_of_scope = s.fss(c);
+        let end_of_scope = s.fss(c);
+        let mut segment_requests = Vec::with_capacity(n);
+        for _ in 0..n {
+            segment_requests.push(SegmentRequestForm {
+                start_offset: s.fss(c),
+                end_offset: s.fss(c),
+            });
+        }
+        (
+            NegativeAcknowledgmentPDU {
+                start_of_scope,
+                end_of_scope,
+                segment_requests,
+            },
+            true,
+        )
+    }
+}
+impl Build for PromptPDU {
+    type Shape = ();
+    fn build(s: &mut Src, _c: (), _sh: ()) -> (Self, bool) {
+        (
+            PromptPDU {
+                nak_or_keep_alive: if s.bool() {
+                    NakOrKeepAlive::KeepAlive
+                } else {
+                    NakOrKeepAlive::Nak
+                },
+            },
+            true,
+        )
+    }
+}
+impl Build for KeepAlivePDU {
+    type Shape = ();
+    fn build(s: &mut Src, c: Fss, _sh: ()) -> (Self, bool) {
+        (KeepAlivePDU { progress: s.fss(c) }, true)
+    }
+}
+/// shape: file data length
+impl Build for UnsegmentedFileData {
+    type Shape = usize;
+    fn build(s: &mut Src, c: Fss, n: usize) -> (Self, bool) {
+        (
+            UnsegmentedFileData {
+                offset: s.fss(c),
+                file_data: s.bytes(n),
+            },
+            true,
+        )
+    }
+}
+/// shape: segment metadata length (<= 63), file data length, record continuation state (it shares
+/// the first octet with the metadata length, so it is shape)
+impl Build for SegmentedFileData {
+    type Shape = (usize, usize, u8);
+    fn build(s: &mut Src, c: Fss, sh: Self::Shape) -> (Self, bool) {
+        (
+            SegmentedFileData {
+                record_continuation_state: rcs(sh.2),
+                segment_metadata: s.bytes(sh.0),
+                offset: s.fss(c),
+                file_data: s.bytes(sh.1),
+            },
+            true,
+        )
+    }
+}
 /// Shape of a PDU payload.
 #[derive(Clone, Copy, Debug)]
 pub enum Pl {
-    /// fault location width (None <=> condition == NoError)
     Eof(Option<usize>),
-    /// filestore responses (l1, l2, lmsg); condition != NoError; fault location width
     Fin(&'static [(usize, usize, usize)], bool, Option<usize>),
     Ack,
-    /// source name length, destination name length, options
     Meta(usize, usize, &'static [Tlv]),
-    /// number of segment requests
     Nak(usize),
     Prompt,
     KeepAlive,
-    /// file data length
     Unseg(usize),
-    /// segment metadata length, file data length, record continuation state (it shares the
-    /// first octet with the metadata length, so it is shape)
     Seg(usize, usize, u8),
+}
+impl Build for Operations {
+    type Shape = Pl;
+    fn build(s: &mut Src, c: Fss, p: Pl) -> (Self, bool) {
+        match p {
+            Pl::Eof(f) => {
+                let (x, ok) = EndOfFile::build(s, c, f);
+                (Operations::EoF(x), ok)
+            }
+            Pl::Fin(r, e, f) => {
+                let (x, ok) = Finished::build(s, (), (r, e, f));
+                (Operations::Finished(x), ok)
+            }
+            Pl::Ack => {
+                let (x, ok) = PositiveAcknowledgePDU::build(s, (), ());
+                (Operations::Ack(x), ok)
+            }
+            Pl::Meta(a, b, o) => {
+                let (x, ok) = MetadataPDU::build(s, c, (a, b, o));
+                (Operations::Metadata(x), ok)
+            }
+            Pl::Nak(n) => {
+                let (x, ok) = NegativeAcknowledgmentPDU::build(s, c, n);
+                (Operations::Nak(x), ok)
+            }
+            Pl::Prompt => {
+                let (x, ok) = PromptPDU::build(s, (), ());
+                (Operations::Prompt(x), ok)
+            }
+            _ => {
+                let (x, ok) = KeepAlivePDU::build(s, c, ());
+                (Operations::KeepAlive(x), ok)
+            }
+        }
+    }
+}
+impl Build for FileDataPDU {
+    type Shape = Pl;
+    fn build(s: &mut Src, c: (Fss, bool), p: Pl) -> (Self, bool) {
+        match p {
+            Pl::Seg(m, n, r) => {
+                let (x, ok) = SegmentedFileData::build(s, c.0, (m, n, r));
+                (FileDataPDU::Segmented(x), ok)
+            }
+            Pl::Unseg(n) => {
+                let (x, ok) = UnsegmentedFileData::build(s, c.0, n);
+                (FileDataPDU::Unsegmented(x), ok)
+            }
+            _ => {
+                let (x, _) = UnsegmentedFileData::build(s, c.0, 0);
+                (FileDataPDU::Unsegmented(x), false)
+            }
+        }
+    }
+}
+impl Build for PDUPayload {
+    type Shape = Pl;
+    fn build(s: &mut Src, c: (bool, Fss, bool), p: Pl) -> (Self, bool) {
+        match p {
+            Pl::Seg(..) | Pl::Unseg(..) => {
+                let (x, ok) = FileDataPDU::build(s, (c.1, c.2), p);
+                (PDUPayload::FileData(x), ok)
+            }
+            _ => {
+                let (x, ok) = Operations::build(s, c.1, p);
+                (PDUPayload::Directive(x), ok)
+            }
+        }
+    }
+}
+
+/// PDUHeader.  shape: (entity width, sequence width, segmentation control, segment metadata flag):
+/// all four share octet 3.  Version, type, direction, mode, CRC flag, file-size flag, the full
+/// 16-bit length and the identifiers are symbolic.  Well-formedness: with CRC, length + 2 <= 65535.
+impl Build for PDUHeader {
+    type Shape = (usize, usize, bool, bool);
+    fn build(s: &mut Src, _c: (), sh: Self::Shape) -> (Self, bool) {
+        let f = s.u8();
+        let crc = if f & 1 != 0 {
+            CRCFlag::Present
+        } else {
+            CRCFlag::NotPresent
+        };
+        let fss = if f & 2 != 0 { Fss::Large } else { Fss::Small };
+        let pdu_type = if f & 4 != 0 {
+            PDUType::FileData
+        } else {
+            PDUType::FileDirective
+        };
+        let len = s.u16();
+        let valid = !(crc == CRCFlag::Present && len > 65533);
+        (
+            header_of(s, sh.0, sh.1, crc, fss, pdu_type, sh.2, seg_flag(sh.3), len),
+            valid,
+        )
+    }
+}
+#[allow(clippy::too_many_arguments)]
+fn header_of(
+    s: &mut Src,
+    we: usize,
+    ws: usize,
+    crc: CRCFlag,
+    fss: Fss,
+    pdu_type: PDUType,
+    segctl: bool,
+    seg: SegmentedData,
+    len: u16,
+) -> PDUHeader {
+    let b = s.u8();
+    PDUHeader {
+        version: u3(b),
+        pdu_type,
+        direction: direction(b & 0x08 != 0),
+        transmission_mode: tmode(b & 0x10 != 0),
+        crc_flag: crc,
+        large_file_flag: fss,
+        pdu_data_field_length: len,
+        segmentation_control: segctrl(segctl),
+        segment_metadata_flag: seg,
+        source_entity_id: s.varid(we),
+        transaction_sequence_number: s.varid(ws),
+        destination_entity_id: s.varid(we),
+    }
+}
+/// Whole PDU.  shape: (entity width, sequence width, CRC, segmentation control, large file,
+/// payload).  pdu_data_field_length = payload.encoded_len(flag) (what every sender does).
+impl Build for PDU {
+    type Shape = (usize, usize, bool, bool, bool, Pl);
+    fn build(s: &mut Src, _c: (), sh: Self::Shape) -> (Self, bool) {
+        let (we, ws, crc, segctl, large, p) = sh;
+        let fss = if large { Fss::Large } else { Fss::Small };
+        let (fd, seg) = match p {
+            Pl::Unseg(_) => (true, false),
+            Pl::Seg(..) => (true, true),
+            _ => (false, false),
+        };
+        let (payload, valid) = PDUPayload::build(s, (fd, fss, seg), p);
+        let len = payload.encoded_len(fss);
+        let header = header_of(
+            s,
+            we,
+            ws,
+            if crc {
+                CRCFlag::Present
+            } else {
+                CRCFlag::NotPresent
+            },
+            fss,
+            if fd {
+                PDUType::FileData
+            } else {
+                PDUType::FileDirective
+            },
+            segctl,
+            seg_flag(seg),
+            len,
+        );
+        (PDU { header, payload }, valid)
+    }
+}
+
+impl Build for Report {
+    type Shape = (usize, usize);
+    fn build(s: &mut Src, _c: (), sh: (usize, usize)) -> (Self, bool) {
+        let id = TransactionID(s.varid(sh.0), s.varid(sh.1));
+        let mut valid = true;
+        let state = match tx_state(s.u8() & 3) {
+            Some(x) => x,
+            None => {
+                valid = false;
+                cfdp_core::transaction::TransactionState::Active
+            }
+        };
+        let status = tx_status(s.u8());
+        let condition = cond_of(s.u8() & 0x0f, &mut valid);
+        (
+            Report {
+                id,
+                state,
+                status,
+                condition,
+            },
+            valid,
+        )
+    }
+}
+
+// ---- user operations: leaf structs ------------------------------------------------------------
+macro_rules! build_two_ids {
+    ($t:ident) => {
+        impl Build for $t {
+            type Shape = (usize, usize);
+            fn build(s: &mut Src, _c: (), sh: (usize, usize)) -> (Self, bool) {
+                (
+                    $t {
+                        source_entity_id: s.varid(sh.0),
+                        transaction_sequence_number: s.varid(sh.1),
+                    },
+                    true,
+                )
+            }
+        }
+    };
+}
+build_two_ids!(OriginatingTransactionIDMessage);
+build_two_ids!(RemoteSuspendRequest);
+build_two_ids!(RemoteResumeRequest);
+impl Build for RemoteStatusReportRequest {
+    type Shape = (usize, usize, usize);
+    fn build(s: &mut Src, _c: (), sh: Self::Shape) -> (Self, bool) {
+        (
+            RemoteStatusReportRequest {
+                source_entity_id: s.varid(sh.0),
+                transaction_sequence_number: s.varid(sh.1),
+                report_filename: s.path(sh.2),
+            },
+            true,
+        )
+    }
+}
+impl Build for RemoteStatusReportResponse {
+    type Shape = (usize, usize);
+    fn build(s: &mut Src, _c: (), sh: Self::Shape) -> (Self, bool) {
+        let b = s.u8();
+        (
+            RemoteStatusReportResponse {
+                transaction_status: tx_status(b),
+                response_code: b & 4 != 0,
+                source_entity_id: s.varid(sh.0),
+                transaction_sequence_number: s.varid(sh.1),
+            },
+            true,
+        )
+    }
+}
+impl Build for RemoteSuspendResponse {
+    type Shape = (usize, usize);
+    fn build(s: &mut Src, _c: (), sh: Self::Shape) -> (Self, bool) {
+        let b = s.u8();
+        (
+            RemoteSuspendResponse {
+                suspend_indication: b & 4 != 0,
+                transaction_status: tx_status(b),
+                source_entity_id: s.varid(sh.0),
+                transaction_sequence_number: s.varid(sh.1),
+            },
+            true,
+        )
+    }
+}
+impl Build for RemoteResumeResponse {
+    type Shape = (usize, usize);
+    fn build(s: &mut Src, _c: (), sh: Self::Shape) -> (Self, bool) {
+        let b = s.u8();
+        (
+            RemoteResumeResponse {
+                suspend_indication: b & 4 != 0,
+                transaction_status: tx_status(b),
+                source_entity_id: s.varid(sh.0),
+                transaction_sequence_number: s.varid(sh.1),
+            },
+            true,
+        )
+    }
+}
+impl Build for ProxyPutRequest {
+    type Shape = (usize, usize, usize);
+    fn build(s: &mut Src, _c: (), sh: Self::Shape) -> (Self, bool) {
+        (
+            ProxyPutRequest {
+                destination_entity_id: s.varid(sh.0),
+                source_filename: s.path(sh.1),
+                destination_filename: s.path(sh.2),
+            },
+            true,
+        )
+    }
+}
+impl Build for ProxyPutResponse {
+    type Shape = ();
+    fn build(s: &mut Src, _c: (), _sh: ()) -> (Self, bool) {
+        let b = s.u8();
+        let mut valid = true;
+        (
+            ProxyPutResponse {
+                condition: cond_of(b & 0x0f, &mut valid),
+                delivery_code: delivery(b & 0x10 != 0),
+                file_status: file_status(b >> 5),
+            },
+            valid,
+        )
+    }
+}
+impl Build for DirectoryListingRequest {
+    type Shape = (usize, usize);
+    fn build(s: &mut Src, _c: (), sh: Self::Shape) -> (Self, bool) {
+        (
+            DirectoryListingRequest {
+                directory_name: s.path(sh.0),
+                directory_filename: s.path(sh.1),
+            },
+            true,
+        )
+    }
+}
+impl Build for DirectoryListingResponse {
+    type Shape = (usize, usize);
+    fn build(s: &mut Src, _c: (), sh: Self::Shape) -> (Self, bool) {
+        (
+            DirectoryListingResponse {
+                response_code: if s.bool() {
+                    ListingResponseCode::Unsuccessful
+                } else {
+                    ListingResponseCode::Successful
+                },
+                directory_name: s.path(sh.0),
+                directory_filename: s.path(sh.1),
+            },
+            true,
+        )
+    }
 }
 
 /// Shape of a reserved CFDP user operation (the 23 publicly constructible kinds).
@@ -75,611 +971,129 @@ pub enum Uo {
     SfoFsReq(usize, usize),
     SfoFsResp(usize, usize, usize),
 }
-
-// =============================================================================================
-// Builders: shape + pool -> value.  None <=> pool octets outside the shape (harness skips).
-// =============================================================================================
-
-fn build_fsreq(s: &mut Src, l1: usize, l2: usize) -> Option<FileStoreRequest> {
-    let action_code = fs_action(s.u8() & 0x0f)?;
-    Some(FileStoreRequest {
-        action_code,
-        first_filename: s.path(l1),
-        second_filename: s.path(l2),
-    })
-}
-fn build_fsresp(s: &mut Src, l1: usize, l2: usize, lm: usize) -> Option<FileStoreResponse> {
-    let b = s.u8();
-    let action_and_status = fs_status(b >> 4, b & 0x0f)?;
-    Some(FileStoreResponse {
-        action_and_status,
-        first_filename: s.path(l1),
-        second_filename: s.path(l2),
-        filestore_message: s.bytes(lm),
-    })
-}
-fn build_fho(s: &mut Src) -> Option<FaultHandlerOverride> {
-    Some(FaultHandlerOverride {
-        fault_handler_code: handler_code(s.u8() & 0x07)?,
-    })
-}
-fn build_tlv(s: &mut Src, t: Tlv) -> Option<MetadataTLV> {
-    Some(match t {
-        Tlv::FsReq(a, b) => MetadataTLV::FileStoreRequest(build_fsreq(s, a, b)?),
-        Tlv::FsResp(a, b, c) => MetadataTLV::FileStoreResponse(build_fsresp(s, a, b, c)?),
-        Tlv::Msg(n) => MetadataTLV::MessageToUser(MessageToUser {
-            message_text: s.bytes(n),
-        }),
-        Tlv::Fho => MetadataTLV::FaultHandlerOverride(build_fho(s)?),
-        Tlv::Flow(n) => MetadataTLV::FlowLabel(FlowLabel { value: s.bytes(n) }),
-        Tlv::Eid(w) => MetadataTLV::EntityID(s.varid(w)),
-    })
-}
-
-fn build_payload(s: &mut Src, fss: Fss, p: Pl) -> Option<PDUPayload> {
-    Some(match p {
-        Pl::Eof(fault) => {
-            let c = condition(s.u8() & 0x0f)?;
-            // well-formedness: fault location present iff condition != NoError
-            if (c == Condition::NoError) != fault.is_none() {
-                return None;
+impl Build for UserOperation {
+    type Shape = Uo;
+    fn build(s: &mut Src, _c: (), u: Uo) -> (Self, bool) {
+        use ProxyOperation as P;
+        use UserOperation as U;
+        use UserRequest as Q;
+        use UserResponse as R;
+        macro_rules! b {
+            ($t:ty, $sh:expr, $wrap:expr) => {{
+                let (x, ok) = <$t>::build(s, (), $sh);
+                ($wrap(x), ok)
+            }};
+        }
+        match u {
+            Uo::OrigTx(a, b) => b!(
+                OriginatingTransactionIDMessage,
+                (a, b),
+                U::OriginatingTransactionIDMessage
+            ),
+            Uo::ProxyPut(w, a, b) => {
+                b!(ProxyPutRequest, (w, a, b), |x| U::ProxyOperation(P::ProxyPutRequest(x)))
             }
-            PDUPayload::Directive(Operations::EoF(EndOfFile {
-                condition: c,
-                checksum: s.u32(),
-                file_size: s.fss(fss),
-                fault_location: match fault {
-                    Some(w) => Some(s.varid(w)),
-                    None => None,
-                },
-            }))
-        }
-        Pl::Fin(resps, err, fault) => {
-            let b = s.u8();
-            let c = condition(b & 0x0f)?;
-            if (c != Condition::NoError) != err {
-                return None;
+            Uo::ProxyMsg(n) => b!(MessageToUser, n, |x| U::ProxyOperation(
+                P::ProxyMessageToUser(x)
+            )),
+            Uo::ProxyFsReq(a, b) => b!(FileStoreRequest, (a, b), |x| U::ProxyOperation(
+                P::ProxyFileStoreRequest(x)
+            )),
+            Uo::ProxyFho => b!(FaultHandlerOverride, (), |x| U::ProxyOperation(
+                P::ProxyFaultHandlerOverride(x)
+            )),
+            Uo::ProxyTm => b!(TransmissionMode, (), |x| U::ProxyOperation(
+                P::ProxyTransmissionMode(x)
+            )),
+            Uo::ProxyFlow(n) => b!(FlowLabel, n, |x| U::ProxyOperation(P::ProxyFlowLabel(x))),
+            Uo::ProxyPutCancel => (U::ProxyOperation(P::ProxyPutCancel), true),
+            Uo::RespProxyPut => b!(ProxyPutResponse, (), |x| U::Response(R::ProxyPut(x))),
+            Uo::RespFs(a, b, c) => {
+                b!(FileStoreResponse, (a, b, c), |x| U::Response(R::ProxyFileStore(x)))
             }
-            let mut filestore_response = Vec::with_capacity(resps.len());
-            let mut i = 0;
-            while i < resps.len() {
-                let (l1, l2, lm) = resps[i];
-                filestore_response.push(build_fsresp(s, l1, l2, lm)?);
-                i += 1;
+            Uo::RespDirList(a, b) => b!(DirectoryListingResponse, (a, b), |x| U::Response(
+                R::DirectoryListing(x)
+            )),
+            Uo::RespStatus(a, b) => b!(RemoteStatusReportResponse, (a, b), |x| U::Response(
+                R::RemoteStatusReport(x)
+            )),
+            Uo::RespResume(a, b) => {
+                b!(RemoteResumeResponse, (a, b), |x| U::Response(R::RemoteResume(x)))
             }
-            PDUPayload::Directive(Operations::Finished(Finished {
-                condition: c,
-                delivery_code: delivery(b & 0x10 != 0),
-                file_status: file_status(b >> 5),
-                filestore_response,
-                fault_location: match fault {
-                    Some(w) => Some(s.varid(w)),
-                    None => None,
-                },
-            }))
-        }
-        Pl::Ack => {
-            let b = s.u8();
-            // "Only valid for EoF and Finished directives"; EoF pairs with Other, Finished with
-            // Finished (CCSDS 727.0-B-5 5.2.4).
-            let (directive, directive_subtype_code) = if b & 0x10 != 0 {
-                (PDUDirective::Finished, ACKSubDirective::Finished)
-            } else {
-                (PDUDirective::EoF, ACKSubDirective::Other)
-            };
-            PDUPayload::Directive(Operations::Ack(PositiveAcknowledgePDU {
-                directive,
-                directive_subtype_code,
-                condition: condition(b & 0x0f)?,
-                transaction_status: tx_status(b >> 5),
-            }))
-        }
-        Pl::Meta(ls, ld, opts) => {
-            let b = s.u8();
-            let file_size = s.fss(fss);
-            let source_filename = s.path(ls);
-            let destination_filename = s.path(ld);
-            let mut options = Vec::with_capacity(opts.len());
-            let mut i = 0;
-            while i < opts.len() {
-                options.push(build_tlv(s, opts[i])?);
-                i += 1;
+            Uo::RespSuspend(a, b) => {
+                b!(RemoteSuspendResponse, (a, b), |x| U::Response(R::RemoteSuspend(x)))
             }
-            PDUPayload::Directive(Operations::Metadata(MetadataPDU {
-                closure_requested: b & 1 != 0,
-                checksum_type: checksum_type(b & 2 != 0),
-                file_size,
-                source_filename,
-                destination_filename,
-                options,
-            }))
-        }
-        Pl::Nak(n) => {
-            let start_of_scope = s.fss(fss);
-            let end_of_scope = s.fss(fss);
-            let mut segment_requests = Vec::with_capacity(n);
-            for _ in 0..n {
-                segment_requests.push(SegmentRequestForm {
-                    start_offset: s.fss(fss),
-                    end_offset: s.fss(fss),
-                });
+            Uo::ReqDirList(a, b) => b!(DirectoryListingRequest, (a, b), |x| U::Request(
+                Q::DirectoryListing(x)
+            )),
+            Uo::ReqStatus(a, b, l) => b!(RemoteStatusReportRequest, (a, b, l), |x| U::Request(
+                Q::RemoteStatusReport(x)
+            )),
+            Uo::ReqSuspend(a, b) => {
+                b!(RemoteSuspendRequest, (a, b), |x| U::Request(Q::RemoteSuspend(x)))
             }
-            PDUPayload::Directive(Operations::Nak(NegativeAcknowledgmentPDU {
-                start_of_scope,
-                end_of_scope,
-                segment_requests,
-            }))
+            Uo::ReqResume(a, b) => {
+                b!(RemoteResumeRequest, (a, b), |x| U::Request(Q::RemoteResume(x)))
+            }
+            Uo::SfoMsg(n) => b!(MessageToUser, n, U::SFOMessageToUser),
+            Uo::SfoFlow(n) => b!(FlowLabel, n, U::SFOFlowLabel),
+            Uo::SfoFho => b!(FaultHandlerOverride, (), U::SFOFaultHandlerOverride),
+            Uo::SfoFsReq(a, b) => b!(FileStoreRequest, (a, b), U::SFOFileStoreRequest),
+            Uo::SfoFsResp(a, b, c) => b!(FileStoreResponse, (a, b, c), U::SFOFileStoreResponse),
         }
-        Pl::Prompt => PDUPayload::Directive(Operations::Prompt(PromptPDU {
-            nak_or_keep_alive: if s.bool() {
-                NakOrKeepAlive::KeepAlive
-            } else {
-                NakOrKeepAlive::Nak
-            },
-        })),
-        Pl::KeepAlive => PDUPayload::Directive(Operations::KeepAlive(KeepAlivePDU {
-            progress: s.fss(fss),
-        })),
-        Pl::Unseg(n) => PDUPayload::FileData(FileDataPDU::Unsegmented(UnsegmentedFileData {
-            offset: s.fss(fss),
-            file_data: s.bytes(n),
-        })),
-        Pl::Seg(m, n, r) => PDUPayload::FileData(FileDataPDU::Segmented(SegmentedFileData {
-            record_continuation_state: rcs(r),
-            segment_metadata: s.bytes(m),
-            offset: s.fss(fss),
-            file_data: s.bytes(n),
-        })),
-    })
-}
-
-fn pl_type(p: Pl) -> (PDUType, SegmentedData) {
-    match p {
-        Pl::Unseg(_) => (PDUType::FileData, SegmentedData::NotPresent),
-        Pl::Seg(..) => (PDUType::FileData, SegmentedData::Present),
-        _ => (PDUType::FileDirective, SegmentedData::NotPresent),
-    }
-}
-
-fn build_userop(s: &mut Src, u: Uo) -> Option<UserOperation> {
-    use ProxyOperation as P;
-    use UserOperation as U;
-    use UserRequest as Q;
-    use UserResponse as R;
-    Some(match u {
-        Uo::OrigTx(we, ws) => {
-            U::OriginatingTransactionIDMessage(OriginatingTransactionIDMessage {
-                source_entity_id: s.varid(we),
-                transaction_sequence_number: s.varid(ws),
-            })
-        }
-        Uo::ProxyPut(w, l1, l2) => U::ProxyOperation(P::ProxyPutRequest(ProxyPutRequest {
-            destination_entity_id: s.varid(w),
-            source_filename: s.path(l1),
-            destination_filename: s.path(l2),
-        })),
-        Uo::ProxyMsg(n) => U::ProxyOperation(P::ProxyMessageToUser(MessageToUser {
-            message_text: s.bytes(n),
-        })),
-        Uo::ProxyFsReq(a, b) => U::ProxyOperation(P::ProxyFileStoreRequest(build_fsreq(s, a, b)?)),
-        Uo::ProxyFho => U::ProxyOperation(P::ProxyFaultHandlerOverride(build_fho(s)?)),
-        Uo::ProxyTm => U::ProxyOperation(P::ProxyTransmissionMode(tmode(s.bool()))),
-        Uo::ProxyFlow(n) => U::ProxyOperation(P::ProxyFlowLabel(FlowLabel { value: s.bytes(n) })),
-        Uo::ProxyPutCancel => U::ProxyOperation(P::ProxyPutCancel),
-        Uo::RespProxyPut => {
-            let b = s.u8();
-            U::Response(R::ProxyPut(ProxyPutResponse {
-                condition: condition(b & 0x0f)?,
-                delivery_code: delivery(b & 0x10 != 0),
-                file_status: file_status(b >> 5),
-            }))
-        }
-        Uo::RespFs(a, b, c) => U::Response(R::ProxyFileStore(build_fsresp(s, a, b, c)?)),
-        Uo::RespDirList(a, b) => U::Response(R::DirectoryListing(DirectoryListingResponse {
-            response_code: if s.bool() {
-                ListingResponseCode::Unsuccessful
-            } else {
-                ListingResponseCode::Successful
-            },
-            directory_name: s.path(a),
-            directory_filename: s.path(b),
-        })),
-        Uo::RespStatus(we, ws) => {
-            let b = s.u8();
-            U::Response(R::RemoteStatusReport(RemoteStatusReportResponse {
-                transaction_status: tx_status(b),
-                response_code: b & 4 != 0,
-                source_entity_id: s.varid(we),
-                transaction_sequence_number: s.varid(ws),
-            }))
-        }
-        Uo::RespResume(we, ws) => {
-            let b = s.u8();
-            U::Response(R::RemoteResume(RemoteResumeResponse {
-                suspend_indication: b & 4 != 0,
-                transaction_status: tx_status(b),
-                source_entity_id: s.varid(we),
-                transaction_sequence_number: s.varid(ws),
-            }))
-        }
-        Uo::RespSuspend(we, ws) => {
-            let b = s.u8();
-            U::Response(R::RemoteSuspend(RemoteSuspendResponse {
-                suspend_indication: b & 4 != 0,
-                transaction_status: tx_status(b),
-                source_entity_id: s.varid(we),
-                transaction_sequence_number: s.varid(ws),
-            }))
-        }
-        Uo::ReqDirList(a, b) => U::Request(Q::DirectoryListing(DirectoryListingRequest {
-            directory_name: s.path(a),
-            directory_filename: s.path(b),
-        })),
-        Uo::ReqStatus(we, ws, l) => U::Request(Q::RemoteStatusReport(RemoteStatusReportRequest {
-            source_entity_id: s.varid(we),
-            transaction_sequence_number: s.varid(ws),
-            report_filename: s.path(l),
-        })),
-        Uo::ReqSuspend(we, ws) => U::Request(Q::RemoteSuspend(RemoteSuspendRequest {
-            source_entity_id: s.varid(we),
-            transaction_sequence_number: s.varid(ws),
-        })),
-        Uo::ReqResume(we, ws) => U::Request(Q::RemoteResume(RemoteResumeRequest {
-            source_entity_id: s.varid(we),
-            transaction_sequence_number: s.varid(ws),
-        })),
-        Uo::SfoMsg(n) => U::SFOMessageToUser(MessageToUser {
-            message_text: s.bytes(n),
-        }),
-        Uo::SfoFlow(n) => U::SFOFlowLabel(FlowLabel { value: s.bytes(n) }),
-        Uo::SfoFho => U::SFOFaultHandlerOverride(build_fho(s)?),
-        Uo::SfoFsReq(a, b) => U::SFOFileStoreRequest(build_fsreq(s, a, b)?),
-        Uo::SfoFsResp(a, b, c) => U::SFOFileStoreResponse(build_fsresp(s, a, b, c)?),
-    })
-}
-
-/// Header with every non-length field taken from the pool.  `len`: value of the length field.
-#[allow(clippy::too_many_arguments)]
-fn build_header(
-    s: &mut Src,
-    we: usize,
-    ws: usize,
-    crc: CRCFlag,
-    fss: Fss,
-    pdu_type: PDUType,
-    segctl: bool,
-    seg: SegmentedData,
-    len: u16,
-) -> PDUHeader {
-    let b = s.u8();
-    PDUHeader {
-        version: u3(b),
-        pdu_type,
-        direction: direction(b & 0x08 != 0),
-        transmission_mode: tmode(b & 0x10 != 0),
-        crc_flag: crc,
-        large_file_flag: fss,
-        pdu_data_field_length: len,
-        segmentation_control: segctrl(segctl),
-        segment_metadata_flag: seg,
-        source_entity_id: s.varid(we),
-        transaction_sequence_number: s.varid(ws),
-        destination_entity_id: s.varid(we),
     }
 }
 
 // =============================================================================================
-// C05: constructive round trips.  encode(x) has the wire-format length n, encoded_len(x) == n,
+// C05: constructive round trip.  encode(x) has the wire-format length n, encoded_len(x) == n,
 // every pinned (length / type) octet of encode(x) has the wire-format value, and
 // decode(encode(x)) == Ok(x).
 // =============================================================================================
+fn decode_and_compare<T: Codec>(c: T::Ctx, w: &[u8], x: &T) -> Outcome {
+    let mut s: &[u8] = w;
+    let r = T::dec(c, &mut s);
+    match &r {
+        Ok(y) => {
+            vcheck!(y.same(x), "decode(encode(x)) != x");
+        }
+        Err(_) => {
+            vcheck!(false, "decode(encode(x)) is Err");
+        }
+    }
+    Outcome::Pass { accepted: true }
+}
 
-macro_rules! round_trip {
-    ($x:expr, $enc:expr, $elen:expr, $n:expr, $pins:expr, $dec:expr, $eq:expr) => {{
-        let enc: Vec<u8> = $enc;
+fn reencode_and_compare<T: Codec>(c: T::Ctx, x: &T, n: usize, pins: &Pins) -> Outcome {
+    let enc = x.enc(c);
+    vcheck!(
+        enc.len() == n,
+        "encode(x).len() differs from the wire-format length of this shape"
+    );
+    if let Some(el) = x.elen(c) {
+        vcheck!(el == n, "encoded_len(x) != encode(x).len()");
+    }
+    if n <= WMAX {
+        let mut w = wire_from_enc(&enc, n);
         vcheck!(
-            enc.len() == $n,
-            "encode(x).len() differs from the wire-format length of this shape"
+            pin(&mut w.w, pins),
+            "a length/type octet of encode(x) differs from the wire format"
         );
-        if let Some(elen) = $elen {
-            vcheck!(elen as usize == $n, "encoded_len(x) != encode(x).len()");
-        }
-        if $n <= WMAX {
-            let mut w = vskip!(wire_from_enc(&enc, $n));
-            vcheck!(
-                pin(&mut w.w, $pins),
-                "a length/type octet of encode(x) differs from the wire format"
-            );
-            let mut s: &[u8] = w.as_slice();
-            match $dec(&mut s) {
-                Ok(y) => {
-                    vcheck!($eq(&y, $x), "decode(encode(x)) != x");
-                }
-                Err(_) => {
-                    vcheck!(false, "decode(encode(x)) is Err");
-                }
-            }
-        } else {
-            let mut w = vskip!(wirebig_from_enc(&enc, $n));
-            vcheck!(
-                pin(&mut w.w, $pins),
-                "a length/type octet of encode(x) differs from the wire format"
-            );
-            let mut s: &[u8] = w.as_slice();
-            match $dec(&mut s) {
-                Ok(y) => {
-                    vcheck!($eq(&y, $x), "decode(encode(x)) != x");
-                }
-                Err(_) => {
-                    vcheck!(false, "decode(encode(x)) is Err");
-                }
-            }
-        }
-        Outcome::Pass { accepted: true }
-    }};
-}
-
-fn eq_derived<T: PartialEq>(a: &T, b: &T) -> bool {
-    a == b
-}
-
-pub fn c05_varid(w: usize, pins: &Pins, n: usize, v: &[u8]) -> Outcome {
-    let mut s = Src::new(v);
-    let x = s.varid(w);
-    // NB VariableID::encoded_len() is the width of the value; encode() prepends a length octet.
-    round_trip!(
-        &x,
-        x.encode(),
-        Some(x.encoded_len() + 1),
-        n,
-        pins,
-        |s: &mut &[u8]| VariableID::decode(s),
-        eq_derived
-    )
-}
-
-pub fn c05_tmode(pins: &Pins, n: usize, v: &[u8]) -> Outcome {
-    let mut s = Src::new(v);
-    let x = tmode(s.bool());
-    round_trip!(
-        &x,
-        x.encode(),
-        Some(x.encoded_len()),
-        n,
-        pins,
-        |s: &mut &[u8]| TransmissionMode::decode(s),
-        eq_derived
-    )
-}
-
-pub fn c05_segreq(fss: Fss, pins: &Pins, n: usize, v: &[u8]) -> Outcome {
-    let mut s = Src::new(v);
-    let x = SegmentRequestForm {
-        start_offset: s.fss(fss),
-        end_offset: s.fss(fss),
-    };
-    round_trip!(
-        &x,
-        x.clone().encode(fss),
-        Some(x.encoded_len(fss)),
-        n,
-        pins,
-        |s: &mut &[u8]| SegmentRequestForm::decode(s, fss),
-        eq_derived
-    )
-}
-
-/// PDUHeader round trip.  Identifier widths, segmentation-control and segment-metadata bits are
-/// shape (they share octet 3 with the width nibbles); everything else incl. the CRC flag and the
-/// full 16-bit length is symbolic.  Well-formedness: with CRC, length + 2 <= 65535.
-pub fn c05_header(
-    we: usize,
-    ws: usize,
-    segctl: bool,
-    seg: bool,
-    pins: &Pins,
-    n: usize,
-    v: &[u8],
-) -> Outcome {
-    let mut s = Src::new(v);
-    let f = s.u8();
-    let crc = if f & 1 != 0 {
-        CRCFlag::Present
+        decode_and_compare(c, w.as_slice(), x)
     } else {
-        CRCFlag::NotPresent
-    };
-    let fss = if f & 2 != 0 { Fss::Large } else { Fss::Small };
-    let pdu_type = if f & 4 != 0 {
-        PDUType::FileData
-    } else {
-        PDUType::FileDirective
-    };
-    let segf = if seg {
-        SegmentedData::Present
-    } else {
-        SegmentedData::NotPresent
-    };
-    let len = s.u16();
-    if crc == CRCFlag::Present && len > 65533 {
-        return Outcome::Skip;
-    }
-    let x = build_header(&mut s, we, ws, crc, fss, pdu_type, segctl, segf, len);
-    round_trip!(
-        &x,
-        x.clone().encode(),
-        Some(x.encoded_len()),
-        n,
-        pins,
-        |s: &mut &[u8]| PDUHeader::decode(s),
-        eq_derived
-    )
-}
-
-/// Metadata TLV round trip; `standalone`: the inner type's own public codec instead of the TLV's.
-pub fn c05_tlv(t: Tlv, standalone: bool, pins: &Pins, n: usize, v: &[u8]) -> Outcome {
-    let mut s = Src::new(v);
-    let x = vskip!(build_tlv(&mut s, t));
-    if !standalone {
-        return round_trip!(
-            &x,
-            x.clone().encode(),
-            Some(x.encoded_len()),
-            n,
-            pins,
-            |s: &mut &[u8]| MetadataTLV::decode(s),
-            eq_tlv
+        let mut w = wirebig_from_enc(&enc, n);
+        vcheck!(
+            pin(&mut w.w, pins),
+            "a length/type octet of encode(x) differs from the wire format"
         );
-    }
-    match x {
-        MetadataTLV::FileStoreRequest(x) => round_trip!(
-            &x,
-            x.clone().encode(),
-            Some(x.encoded_len()),
-            n,
-            pins,
-            |s: &mut &[u8]| FileStoreRequest::decode(s),
-            eq_fsreq
-        ),
-        MetadataTLV::FileStoreResponse(x) => round_trip!(
-            &x,
-            x.clone().encode(),
-            Some(x.encoded_len()),
-            n,
-            pins,
-            |s: &mut &[u8]| FileStoreResponse::decode(s),
-            eq_fsresp
-        ),
-        MetadataTLV::MessageToUser(x) => round_trip!(
-            &x,
-            x.clone().encode(),
-            Some(x.encoded_len()),
-            n,
-            pins,
-            |s: &mut &[u8]| MessageToUser::decode(s),
-            eq_derived
-        ),
-        MetadataTLV::FaultHandlerOverride(x) => round_trip!(
-            &x,
-            x.clone().encode(),
-            Some(x.encoded_len()),
-            n,
-            pins,
-            |s: &mut &[u8]| FaultHandlerOverride::decode(s),
-            eq_derived
-        ),
-        MetadataTLV::FlowLabel(x) => round_trip!(
-            &x,
-            x.clone().encode(),
-            Some(x.encoded_len()),
-            n,
-            pins,
-            |s: &mut &[u8]| FlowLabel::decode(s),
-            eq_derived
-        ),
-        MetadataTLV::EntityID(x) => round_trip!(
-            &x,
-            x.encode(),
-            Some(x.encoded_len() + 1),
-            n,
-            pins,
-            |s: &mut &[u8]| VariableID::decode(s),
-            eq_derived
-        ),
+        decode_and_compare(c, w.as_slice(), x)
     }
 }
 
-/// Payload (directive or file data) round trip through PDUPayload::{encode, encoded_len, decode}.
-pub fn c05_payload(fss: Fss, p: Pl, pins: &Pins, n: usize, v: &[u8]) -> Outcome {
+pub fn c05_rt<T: Build>(c: T::Ctx, sh: T::Shape, pins: &Pins, n: usize, v: &[u8]) -> Outcome {
     let mut s = Src::new(v);
-    let x = vskip!(build_payload(&mut s, fss, p));
-    let (pdu_type, seg) = pl_type(p);
-    round_trip!(
-        &x,
-        x.clone().encode(fss),
-        Some(x.encoded_len(fss)),
-        n,
-        pins,
-        |s: &mut &[u8]| PDUPayload::decode(s, pdu_type.clone(), fss, seg),
-        eq_payload
-    )
-}
-
-/// Whole PDU round trip (header + payload + optional CRC) through PDU::{encode, encoded_len, decode}.
-/// pdu_data_field_length = payload.encoded_len(flag) (what every sender in cfdp-daemon does).
-/// NB PDU::encoded_len() does not count the two CRC octets; the obligation is
-/// encoded_len + (2 if CRC) == encode().len().
-#[allow(clippy::too_many_arguments)]
-pub fn c05_pdu(
-    we: usize,
-    ws: usize,
-    crc: bool,
-    segctl: bool,
-    fss: Fss,
-    p: Pl,
-    pins: &Pins,
-    n: usize,
-    v: &[u8],
-) -> Outcome {
-    let mut s = Src::new(v);
-    let payload = vskip!(build_payload(&mut s, fss, p));
-    let (pdu_type, seg) = pl_type(p);
-    let crcf = if crc {
-        CRCFlag::Present
-    } else {
-        CRCFlag::NotPresent
-    };
-    let len = payload.encoded_len(fss);
-    let header = build_header(&mut s, we, ws, crcf, fss, pdu_type, segctl, seg, len);
-    let x = PDU { header, payload };
-    let extra: u16 = if crc { 2 } else { 0 };
-    round_trip!(
-        &x,
-        x.clone().encode(),
-        Some(x.encoded_len() + extra),
-        n,
-        pins,
-        |s: &mut &[u8]| PDU::decode(s),
-        eq_pdu
-    )
-}
-
-/// Reserved CFDP user operation round trip (constructible kinds).
-pub fn c05_userop(u: Uo, pins: &Pins, n: usize, v: &[u8]) -> Outcome {
-    let mut s = Src::new(v);
-    let x = vskip!(build_userop(&mut s, u));
-    round_trip!(
-        &x,
-        x.clone().encode(),
-        Some(x.encoded_len()),
-        n,
-        pins,
-        |s: &mut &[u8]| UserOperation::decode(s),
-        eq_userop
-    )
-}
-
-/// Status report (cfdp-core/src/daemon.rs).  Report has no encoded_len and no PartialEq.
-pub fn c05_report(we: usize, ws: usize, pins: &Pins, n: usize, v: &[u8]) -> Outcome {
-    let mut s = Src::new(v);
-    let x = Report {
-        id: TransactionID(s.varid(we), s.varid(ws)),
-        state: vskip!(tx_state(s.u8() & 3)),
-        status: tx_status(s.u8()),
-        condition: vskip!(condition(s.u8() & 0x0f)),
-    };
-    let no_len: Option<u16> = None;
-    round_trip!(
-        &x,
-        x.clone().encode(),
-        no_len,
-        n,
-        pins,
-        |s: &mut &[u8]| Report::decode(s),
-        eq_report
-    )
-}
-fn eq_report(a: &Report, b: &Report) -> bool {
-    a.id == b.id && a.state == b.state && a.status == b.status && a.condition == b.condition
+    let (x, valid) = T::build(&mut s, c, sh);
+    vskip!(valid);
+    reencode_and_compare(c, &x, n, pins)
 }
 
 // =============================================================================================
@@ -689,212 +1103,16 @@ fn eq_report(a: &Report, b: &Report) -> bool {
 //   decode(wire) never panics;  if it is Ok(x):
 //      encode(x) has the canonical length the generator predicted, encoded_len(x) agrees,
 //      the canonical length/type octets are as predicted, and decode(encode(x)) == Ok(x).
+//
+//  * `t`       wire template (K octets), `g` class guards on the wire
+//  * `canon`   Some((canonical length, canonical pins)) if the generator expects that inputs of
+//              this template CAN be accepted; None if it classifies the template as malformed
+//              (then acceptance itself is reported -- the generator's model of the wire format is
+//              wrong or the decoder is more liberal than thought) unless `lax`, in which case the
+//              harness only establishes absence of panics / non-termination.
 // =============================================================================================
-
-/// Which public decoder a type-level harness exercises.
-#[derive(Clone, Copy, Debug)]
-pub enum Dec {
-    Header,
-    VarId,
-    Lv,
-    TMode,
-    Fho,
-    Flow,
-    Msg,
-    FsReq,
-    FsResp,
-    Tlv,
-    UserOp,
-    Report,
-    SegReq(Fss),
-    /// PDUPayload::decode(pdu_type is FileData, fss, segment metadata present)
-    Payload(bool, Fss, bool),
-    Pdu,
-}
-
-/// A decoded value of any of the types above.
-pub enum Val {
-    Header(PDUHeader),
-    VarId(VariableID),
-    Lv(Vec<u8>),
-    TMode(TransmissionMode),
-    Fho(FaultHandlerOverride),
-    Flow(FlowLabel),
-    Msg(MessageToUser),
-    FsReq(FileStoreRequest),
-    FsResp(FileStoreResponse),
-    Tlv(MetadataTLV),
-    UserOp(UserOperation),
-    Report(Report),
-    SegReq(SegmentRequestForm),
-    Payload(PDUPayload),
-    Pdu(PDU),
-}
-
-fn payload_args(fd: bool, seg: bool) -> (PDUType, SegmentedData) {
-    (
-        if fd {
-            PDUType::FileData
-        } else {
-            PDUType::FileDirective
-        },
-        if seg {
-            SegmentedData::Present
-        } else {
-            SegmentedData::NotPresent
-        },
-    )
-}
-
-pub fn decode_any(d: Dec, s: &mut &[u8]) -> PDUResult<Val> {
-    Ok(match d {
-        Dec::Header => Val::Header(PDUHeader::decode(s)?),
-        Dec::VarId => Val::VarId(VariableID::decode(s)?),
-        Dec::Lv => Val::Lv(read_length_value_pair(s)?),
-        Dec::TMode => Val::TMode(TransmissionMode::decode(s)?),
-        Dec::Fho => Val::Fho(FaultHandlerOverride::decode(s)?),
-        Dec::Flow => Val::Flow(FlowLabel::decode(s)?),
-        Dec::Msg => Val::Msg(MessageToUser::decode(s)?),
-        Dec::FsReq => Val::FsReq(FileStoreRequest::decode(s)?),
-        Dec::FsResp => Val::FsResp(FileStoreResponse::decode(s)?),
-        Dec::Tlv => Val::Tlv(MetadataTLV::decode(s)?),
-        Dec::UserOp => Val::UserOp(UserOperation::decode(s)?),
-        Dec::Report => Val::Report(Report::decode(s)?),
-        Dec::SegReq(f) => Val::SegReq(SegmentRequestForm::decode(s, f)?),
-        Dec::Payload(fd, f, seg) => {
-            let (t, g) = payload_args(fd, seg);
-            Val::Payload(PDUPayload::decode(s, t, f, g)?)
-        }
-        Dec::Pdu => Val::Pdu(PDU::decode(s)?),
-    })
-}
-
-/// Canonical re-encoding: (octets, encoded_len() + adjustments so that it should equal octets.len()).
-/// For a PDU the length field is recomputed from the payload first (C06 statement).
-fn reencode(d: Dec, x: &Val) -> (Val, Vec<u8>, Option<usize>) {
-    match x {
-        Val::Header(h) => (
-            Val::Header(h.clone()),
-            h.clone().encode(),
-            Some(h.encoded_len() as usize),
-        ),
-        Val::VarId(i) => (
-            Val::VarId(*i),
-            i.encode(),
-            Some(i.encoded_len() as usize + 1),
-        ),
-        Val::Lv(b) => {
-            // read_length_value_pair has no encoder; its inverse is the LV form
-            let mut e = vec![b.len() as u8];
-            e.extend_from_slice(b);
-            (Val::Lv(b.clone()), e, None)
-        }
-        Val::TMode(t) => (
-            Val::TMode(*t),
-            t.encode(),
-            Some(t.encoded_len() as usize),
-        ),
-        Val::Fho(t) => (
-            Val::Fho(t.clone()),
-            t.clone().encode(),
-            Some(t.encoded_len() as usize),
-        ),
-        Val::Flow(t) => (
-            Val::Flow(t.clone()),
-            t.clone().encode(),
-            Some(t.encoded_len() as usize),
-        ),
-        Val::Msg(t) => (
-            Val::Msg(t.clone()),
-            t.clone().encode(),
-            Some(t.encoded_len() as usize),
-        ),
-        Val::FsReq(t) => (
-            Val::FsReq(t.clone()),
-            t.clone().encode(),
-            Some(t.encoded_len() as usize),
-        ),
-        Val::FsResp(t) => (
-            Val::FsResp(t.clone()),
-            t.clone().encode(),
-            Some(t.encoded_len() as usize),
-        ),
-        Val::Tlv(t) => (
-            Val::Tlv(t.clone()),
-            t.clone().encode(),
-            Some(t.encoded_len() as usize),
-        ),
-        Val::UserOp(t) => (
-            Val::UserOp(t.clone()),
-            t.clone().encode(),
-            Some(t.encoded_len() as usize),
-        ),
-        Val::Report(t) => (Val::Report(t.clone()), t.clone().encode(), None),
-        Val::SegReq(t) => {
-            let f = match d {
-                Dec::SegReq(f) => f,
-                _ => Fss::Small,
-            };
-            (
-                Val::SegReq(t.clone()),
-                t.clone().encode(f),
-                Some(t.encoded_len(f) as usize),
-            )
-        }
-        Val::Payload(t) => {
-            let f = match d {
-                Dec::Payload(_, f, _) => f,
-                _ => Fss::Small,
-            };
-            (
-                Val::Payload(t.clone()),
-                t.clone().encode(f),
-                Some(t.encoded_len(f) as usize),
-            )
-        }
-        Val::Pdu(t) => {
-            let mut y = t.clone();
-            y.header.pdu_data_field_length = y.payload.encoded_len(y.header.large_file_flag);
-            let extra = match y.header.crc_flag {
-                CRCFlag::Present => 2,
-                CRCFlag::NotPresent => 0,
-            };
-            let el = y.encoded_len() as usize + extra;
-            (Val::Pdu(y.clone()), y.encode(), Some(el))
-        }
-    }
-}
-
-fn eq_val(a: &Val, b: &Val) -> bool {
-    match (a, b) {
-        (Val::Header(x), Val::Header(y)) => x == y,
-        (Val::VarId(x), Val::VarId(y)) => x == y,
-        (Val::Lv(x), Val::Lv(y)) => x == y,
-        (Val::TMode(x), Val::TMode(y)) => x == y,
-        (Val::Fho(x), Val::Fho(y)) => x == y,
-        (Val::Flow(x), Val::Flow(y)) => x == y,
-        (Val::Msg(x), Val::Msg(y)) => x == y,
-        (Val::FsReq(x), Val::FsReq(y)) => eq_fsreq(x, y),
-        (Val::FsResp(x), Val::FsResp(y)) => eq_fsresp(x, y),
-        (Val::Tlv(x), Val::Tlv(y)) => eq_tlv(x, y),
-        (Val::UserOp(x), Val::UserOp(y)) => eq_userop(x, y),
-        (Val::Report(x), Val::Report(y)) => eq_report(x, y),
-        (Val::SegReq(x), Val::SegReq(y)) => x == y,
-        (Val::Payload(x), Val::Payload(y)) => eq_payload(x, y),
-        (Val::Pdu(x), Val::Pdu(y)) => eq_pdu(x, y),
-        _ => false,
-    }
-}
-
-/// Template-driven decoder check.
-///  * `t`       wire template (K octets), `g` class guards on the wire
-///  * `canon`   Some((canonical length, canonical pins)) if the generator expects that datagrams
-///              of this template CAN be accepted; None if it classifies the template as malformed
-///              (then acceptance itself is reported -- it means the generator's model of the wire
-///              format is wrong or the decoder is more liberal than thought) unless `lax`, in
-///              which case the harness only establishes absence of panics / non-termination.
-pub fn c06_decode(
-    d: Dec,
+pub fn c06_decode<T: Codec>(
+    c: T::Ctx,
     t: &Tpl,
     g: &Guards,
     canon: Option<(usize, &Pins)>,
@@ -902,52 +1120,27 @@ pub fn c06_decode(
     v: &[u8],
 ) -> Outcome {
     let wire = wire_from_tpl(t, v);
-    if !guards_hold(&wire.w, g) {
-        return Outcome::Skip;
-    }
+    vskip!(guards_hold(&wire.w, g));
     let mut s: &[u8] = wire.as_slice();
-    let x = match decode_any(d, &mut s) {
-        Err(_) => return Outcome::Pass { accepted: false },
-        Ok(x) => x,
-    };
-    let (cn, pins) = match canon {
-        Some(c) => c,
-        None => {
-            if !lax {
-                vcheck!(
-                    false,
-                    "decoder accepted a datagram the generator classified as malformed"
-                );
+    let mut r = T::dec(c, &mut s);
+    match &mut r {
+        Err(_) => Outcome::Pass { accepted: false },
+        Ok(x) => match canon {
+            None => {
+                if !lax {
+                    vcheck!(
+                        false,
+                        "decoder accepted an input the generator classified as malformed"
+                    );
+                }
+                Outcome::Pass { accepted: true }
             }
-            return Outcome::Pass { accepted: true };
-        }
-    };
-    let (y, enc, elen) = reencode(d, &x);
-    vcheck!(
-        enc.len() == cn,
-        "re-encoding of the accepted value does not have the predicted canonical length"
-    );
-    if let Some(el) = elen {
-        vcheck!(el == cn, "encoded_len(x) != encode(x).len() for an accepted value");
+            Some((cn, pins)) => {
+                x.canon();
+                reencode_and_compare(c, x, cn, pins)
+            }
+        },
     }
-    let mut w2 = vskip!(wire_from_enc(&enc, cn));
-    vcheck!(
-        pin(&mut w2.w, pins),
-        "a length/type octet of the re-encoding differs from the canonical wire format"
-    );
-    let mut s2: &[u8] = w2.as_slice();
-    match decode_any(d, &mut s2) {
-        Ok(z) => {
-            vcheck!(
-                eq_val(&z, &y),
-                "not canonical: decode(encode(x)) != x for an accepted x"
-            );
-        }
-        Err(_) => {
-            vcheck!(false, "not canonical: re-encoding of an accepted value is rejected");
-        }
-    }
-    Outcome::Pass { accepted: true }
 }
 
 /// No-panic sweep over every truncation of a datagram template: for k in 0..=payload length the
@@ -984,19 +1177,39 @@ pub fn c06_pdu_trunc(t: &Tpl, hl: usize, crc: bool, v: &[u8]) -> Outcome {
     Outcome::Pass { accepted }
 }
 
-/// No-panic on n completely free octets, fed to decoder `d` in full and (when `trunc`) also
+/// Same sweep one layer down: every prefix of a payload template through decoder T (used for
+/// Operations / FileDataPDU, whose decoders see exactly the `pdu_data_field_length` octets that
+/// PDU::decode slices off).
+pub fn c06_trunc<T: Codec>(c: T::Ctx, t: &Tpl, v: &[u8]) -> Outcome {
+    let full = wire_from_tpl(t, v);
+    let mut accepted = false;
+    let mut k = 0;
+    while k <= full.n {
+        let mut s: &[u8] = &full.w[..k];
+        if T::dec(c, &mut s).is_ok() {
+            accepted = true;
+        }
+        k += 1;
+    }
+    Outcome::Pass { accepted }
+}
+
+/// No-panic on n completely free octets, fed to decoder T in full and (when `trunc`) also
 /// truncated to a symbolic length (v[n] selects it).
-pub fn c06_free(d: Dec, n: usize, trunc: bool, v: &[u8]) -> Outcome {
+pub fn c06_free<T: Codec>(c: T::Ctx, n: usize, trunc: bool, v: &[u8]) -> Outcome {
     let mut s: &[u8] = &v[..n];
-    let mut accepted = decode_any(d, &mut s).is_ok();
+    let mut accepted = T::dec(c, &mut s).is_ok();
     if trunc {
         let k = v[n] as usize;
         if k < n {
             let mut s: &[u8] = &v[..k];
-            if decode_any(d, &mut s).is_ok() {
+            if T::dec(c, &mut s).is_ok() {
                 accepted = true;
             }
         }
     }
     Outcome::Pass { accepted }
 }
+
+#[allow(dead_code)]
+fn _unused(_: Utf8PathBuf) {}
